@@ -21,11 +21,15 @@ import (
 	"verif/internal/core"
 	"verif/internal/evid"
 	"verif/internal/simbuild"
+	"verif/internal/xch"
 )
 
 var checks = map[string]core.CheckFunc{
 	"C10": c10.Run,
 	"C14": c14.Run,
+	"C01": xch.Run("C01"),
+	"C15": xch.Run("C15"),
+	"C19": xch.Run("C19"),
 	"C20": c20.Run,
 }
 
@@ -85,6 +89,16 @@ func main() {
 	switch os.Args[1] {
 	case "instrument":
 		os.Exit(instrument())
+	case "xbuild":
+		e, err := xch.NewEngine("xbuild", len(os.Args) > 2)
+		if err != nil {
+			fmt.Fprintln(os.Stderr, err)
+			build.RunCleanups()
+			os.Exit(2)
+		}
+		fmt.Println("built", e.Plain, e.Race, e.GenStats.PerRule)
+		build.RunCleanups()
+		os.Exit(0)
 	case "--replay":
 		if len(os.Args) != 3 {
 			usage()
